@@ -27,6 +27,31 @@ RESIDUAL = ("Riemann-sum-to-integral step of the Gaussian clause is numeric only
 CHECKER_MODULES = ["Spdc.Real.HomLemmas"]
 
 
+def _in_domain(body):
+    """square grid with identical signal and idler axes (the statement's domain for the array-level rate)"""
+    t = body.split(" ", 8)
+    return len(t) >= 8 and t[1] == t[4] and t[2] == t[5] and t[3] == t[6] and t[3] != "0"
+
+
+def on_case(op, body, impl_out, model_out):
+    """The property's title names the array-level rate: it IS the normalised interference sum
+    1/2 (1 - Re sum conj(f_k) g_k e^{i D_k tau} / sum |f_k|^2) over the grid enumeration.  The model's homRate is that
+    formula, so on the statement's domain (square grids with identical axes) a value of hom_rate / hom_rate_series
+    that differs from it beyond the parallel-sum tolerance is a failing input of the property itself."""
+    if op not in ("hom_rate", "hom_rate_series") or not _in_domain(body):
+        return []
+    if model_out.startswith("UNSUPPORTED") or model_out == "DRIVER-DIED":
+        return []
+    import vlib
+    ok, why = vlib.compare_tokens(impl_out, model_out, TOL[op])
+    t = body.split(" ")
+    side = t[3]
+    # the arrays are long: identify the case by grid, delay(s) and seed-independent leading tokens
+    detail = (f"op={op} side={side} grid=({t[1]},{t[2]}) head={','.join(t[7:12])} impl={impl_out[:120].replace(' ', ',')} "
+              f"interference_sum_formula={model_out[:120].replace(' ', ',')} {why.replace(' ', '_')}")
+    return [("C09.integral", ok, "hom/rate-is-normalised-interference-sum", detail)]
+
+
 def families(tier, seed):
     if tier == "quick":
         return [("hom", seed, 400, ["array"]), ("hom", seed, 40, ["setup"])]
